@@ -458,7 +458,12 @@ fn gen_random_zone(rng: &mut Rng) -> FlatZone {
             recs.push(d);
         }
     }
-    FlatZone { apex, soa, recs }
+    FlatZone {
+        apex,
+        soa,
+        recs,
+        preclamped: false,
+    }
 }
 
 fn random_qnames(rng: &mut Rng, fz: &FlatZone, n: usize) -> Vec<DomainName> {
@@ -589,6 +594,7 @@ fn c02(args: Args) {
                         apex: apex.clone(),
                         soa: if auth { Some(mk_soa(apex, 60)) } else { None },
                         recs,
+                        preclamped: false,
                     };
                     let zone = build_zone(&fz);
                     sh.count("small_scope_zones", 1);
